@@ -104,7 +104,7 @@ func (fv *FV) evalArgs(st *State, call *ast.CallExpr, sig *types.Signature) []Va
 				args = append(args, fv.zero(vt))
 			} else {
 				z := fv.zero(et)
-				arr := fmt.Sprintf("((as const (Array Int %s)) %s)", es, z.T)
+				arr := fv.constArr("Int", es, z.T)
 				for i, a := range extra {
 					v := fv.convertTo(st, fv.eval(st, a), et)
 					if v.Clos != nil {
@@ -112,7 +112,7 @@ func (fv *FV) evalArgs(st *State, call *ast.CallExpr, sig *types.Signature) []Va
 					}
 					arr = fmt.Sprintf("(store %s %d %s)", arr, i, v.T)
 				}
-				args = append(args, fv.name("varargs", Val{T: fmt.Sprintf("(mksq %s %d %s)", arr, len(extra), fv.newRef()), S: fmt.Sprintf("(GSeq %s)", es), Go: vt}))
+				args = append(args, fv.name("varargs", Val{T: fmt.Sprintf("((as mksq %s) %s %d %s)", fmt.Sprintf("(GSeq %s)", es), arr, len(extra), fv.newRef()), S: fmt.Sprintf("(GSeq %s)", es), Go: vt}))
 			}
 		}
 	}
@@ -145,7 +145,16 @@ func (fv *FV) evalCall(st *State, call *ast.CallExpr) []Val {
 		if sig == nil {
 			fv.unsupported("call of non-function %s", fv.exprText(call.Fun))
 		}
-		fv.evalArgs(st, call, sig)
+		args := fv.evalArgs(st, call, sig)
+		// a function-typed parameter of the function under verification is an
+		// uninterpreted (pure, deterministic) function of its arguments: the
+		// same symbol the contract's `fn(...)` denotes
+		if id, ok := unparen(call.Fun).(*ast.Ident); ok && sig.Results().Len() == 1 {
+			if po, ok := info.Uses[id].(*types.Var); ok && fv.isTopParam(po) {
+				fv.assumed["function parameter "+id.Name+" of "+fv.fname+" is treated as a pure, deterministic function (callers passing closures are checked for syntactic purity)"] = true
+				return []Val{fv.applyUF(fval, args, sig.Results().At(0).Type())}
+			}
+		}
 		return fv.opaqueCall(st, "callback "+fv.exprText(call.Fun), sig, call)
 	}
 	sig := fn.Type().(*types.Signature)
@@ -187,6 +196,16 @@ func (fv *FV) evalCall(st *State, call *ast.CallExpr) []Val {
 	if ts, ok := info.TypeOf(call.Fun).(*types.Signature); ok {
 		isig = ts
 	}
+	if full == "slices.Collect" && len(call.Args) == 1 {
+		if inner, ok := unparen(call.Args[0]).(*ast.CallExpr); ok {
+			if ifn, _, _ := fv.calleeOf(inner); ifn != nil && funcFullName(ifn) == "maps.Keys" {
+				m := fv.eval(st, inner.Args[0])
+				if r, done := fv.stdlibCall(st, call, fn, full, nil, []Val{m}, isig); done {
+					return r
+				}
+			}
+		}
+	}
 	args := fv.evalArgs(st, call, isig)
 	if r, done := fv.stdlibCall(st, call, fn, full, recv, args, isig); done {
 		return r
@@ -222,6 +241,32 @@ func unparen(e ast.Expr) ast.Expr {
 		}
 		e = p.X
 	}
+}
+
+func (fv *FV) isTopParam(o *types.Var) bool {
+	if fv.fn == nil || !fv.fn.top || fv.fn.sig == nil {
+		return false
+	}
+	ps := fv.fn.sig.Params()
+	for i := 0; i < ps.Len(); i++ {
+		if ps.At(i) == o {
+			return true
+		}
+	}
+	return false
+}
+
+// applyUF: application of an opaque function value as an uninterpreted function.
+func (fv *FV) applyUF(f Val, args []Val, rt types.Type) Val {
+	var sorts, ts []string
+	for _, a := range args {
+		sorts = append(sorts, a.S)
+		ts = append(ts, a.T)
+	}
+	rs := fv.sess.sortOf(rt)
+	fn := "apply_" + sanitize(strings.Join(sorts, "_")) + "_to_" + sanitize(rs)
+	fv.sess.decl("fn:"+fn, fmt.Sprintf("(declare-fun %s (Any %s) %s)", fn, strings.Join(sorts, " "), rs))
+	return Val{T: fmt.Sprintf("(%s %s %s)", fn, f.T, strings.Join(ts, " ")), S: rs, Go: rt}
 }
 
 func (fv *FV) havocResults(sig *types.Signature, what string) []Val {
@@ -355,11 +400,13 @@ func (fv *FV) evalBuiltin(st *State, call *ast.CallExpr, name string) []Val {
 		cur := s
 		arr := fmt.Sprintf("(sq.arr %s)", s.T)
 		n := 0
+		var appended []string
 		for _, a := range call.Args[1:] {
 			v := fv.convertTo(st, fv.eval(st, a), et)
 			if v.Clos != nil {
 				v = Val{T: "nil!Any", S: "Any"}
 			}
+			appended = append(appended, v.T)
 			if n == 0 {
 				arr = fmt.Sprintf("(store %s (sq.len %s) %s)", arr, s.T, v.T)
 			} else {
@@ -371,18 +418,32 @@ func (fv *FV) evalBuiltin(st *State, call *ast.CallExpr, name string) []Val {
 			return []Val{cur}
 		}
 		ref := fv.appendRef(st, s)
-		return []Val{fv.name("app", Val{T: fmt.Sprintf("(mksq %s (+ (sq.len %s) %d) %s)", arr, s.T, n, ref), S: s.S, Go: t})}
+		res := fv.nameAlways("app", Val{T: fmt.Sprintf("((as mksq %s) %s (+ (sq.len %s) %d) %s)", s.S, arr, s.T, n, ref), S: s.S, Go: t})
+		if fv.pure == 0 {
+			// derived fact of the model: membership in the result
+			mem := fv.sess.fnMem(seqElemSort(s.S))
+			var eqs []string
+			for _, a := range appended {
+				eqs = append(eqs, fmt.Sprintf("(= x!q %s)", a))
+			}
+			fv.assumeHint(st, mem, fmt.Sprintf("(forall ((x!q %s)) (! (= (%s %s x!q) (or (%s %s x!q) %s)) :pattern ((%s %s x!q)) :pattern ((%s %s x!q))))",
+				seqElemSort(s.S), mem, res.T, mem, s.T, strings.Join(eqs, " "), mem, res.T, mem, s.T))
+			for _, a := range appended {
+				fv.assumeHint(st, mem, fmt.Sprintf("(%s %s %s)", mem, res.T, a))
+			}
+		}
+		return []Val{res}
 	case "make":
 		switch u := underCore(t).(type) {
 		case *types.Slice:
 			n := fv.eval(st, call.Args[1])
 			fv.safe(st, "make", call, fmt.Sprintf("(>= %s 0)", n.T))
 			z := fv.zero(u.Elem())
-			return []Val{fv.name("mk", Val{T: fmt.Sprintf("(mksq ((as const (Array Int %s)) %s) %s %s)", z.S, z.T, n.T, fv.newRef()), S: fv.sess.sortOf(t), Go: t})}
+			return []Val{fv.name("mk", Val{T: fmt.Sprintf("((as mksq %s) %s %s %s)", fv.sess.sortOf(t), fv.constArr("Int", z.S, z.T), n.T, fv.newRef()), S: fv.sess.sortOf(t), Go: t})}
 		case *types.Map:
 			ks, vs := fv.sess.sortOf(u.Key()), fv.sess.sortOf(u.Elem())
 			z := fv.zero(u.Elem())
-			return []Val{{T: fmt.Sprintf("(mkmp ((as const (Array %s %s)) %s) ((as const (Array %s Bool)) false) %s)", ks, vs, z.T, ks, fv.newRef()), S: fv.sess.sortOf(t), Go: t}}
+			return []Val{{T: fmt.Sprintf("((as mkmp %s) %s ((as const (Array %s Bool)) false) %s)", fv.sess.sortOf(t), fv.constArr(ks, vs, z.T), ks, fv.newRef()), S: fv.sess.sortOf(t), Go: t}}
 		case *types.Chan:
 			c := fv.freshVal("chan", t)
 			fv.assume(st, fmt.Sprintf("(> %s alloc0)", c.T))
@@ -397,7 +458,7 @@ func (fv *FV) evalBuiltin(st *State, call *ast.CallExpr, name string) []Val {
 		m := fv.eval(st, call.Args[0])
 		mt := underCore(info.TypeOf(call.Args[0])).(*types.Map)
 		k := fv.convertTo(st, fv.eval(st, call.Args[1]), mt.Key())
-		nv := Val{T: fmt.Sprintf("(mkmp (mp.val %s) (store (mp.dom %s) %s false) (mp.ref %s))", m.T, m.T, k.T, m.T), S: m.S, Go: m.Go}
+		nv := Val{T: fmt.Sprintf("((as mkmp %s) (mp.val %s) (store (mp.dom %s) %s false) (mp.ref %s))", m.S, m.T, m.T, k.T, m.T), S: m.S, Go: m.Go}
 		fv.assign(st, call.Args[0], nv)
 		return nil
 	case "copy":
@@ -491,6 +552,12 @@ func (fv *FV) concatSeq(st *State, a, b Val, t types.Type) Val {
 	r.Go = t
 	fv.assume(st, fmt.Sprintf("(and (= (sq.len %s) (+ (sq.len %s) (sq.len %s))) (>= (sq.ref %s) 0) (=> (> (sq.len %s) 0) (> (sq.ref %s) 0)) (=> (= (sq.len %s) 0) (= (sq.ref %s) (sq.ref %s))) (forall ((i!q Int)) (! (= (select (sq.arr %s) i!q) (ite (< i!q (sq.len %s)) (select (sq.arr %s) i!q) (select (sq.arr %s) (- i!q (sq.len %s))))) :pattern ((select (sq.arr %s) i!q)))))",
 		r.T, a.T, b.T, r.T, r.T, r.T, b.T, r.T, a.T, r.T, a.T, a.T, b.T, a.T, r.T))
+	// derived facts of the same model, stated for instantiation in the other
+	// direction (triggered by reads of the operands) and for membership
+	es := seqElemSort(a.S)
+	mem := fv.sess.fnMem(es)
+	fv.assume(st, fmt.Sprintf("(forall ((i!q Int)) (! (=> (and (<= 0 i!q) (< i!q (sq.len %s))) (= (select (sq.arr %s) (+ i!q (sq.len %s))) (select (sq.arr %s) i!q))) :pattern ((select (sq.arr %s) i!q))))", b.T, r.T, a.T, b.T, b.T))
+	fv.assumeHint(st, mem, fmt.Sprintf("(forall ((x!q %s)) (! (= (%s %s x!q) (or (%s %s x!q) (%s %s x!q))) :pattern ((%s %s x!q)) :pattern ((%s %s x!q)) :pattern ((%s %s x!q))))", es, mem, r.T, mem, a.T, mem, b.T, mem, r.T, mem, a.T, mem, b.T))
 	return r
 }
 
@@ -770,7 +837,24 @@ func (fv *FV) stdlibCall(st *State, call *ast.CallExpr, fn *types.Func, full str
 		r.Go = t
 		fv.assume(st, fmt.Sprintf("(and (= (sq.len %s) (- (sq.len %s) (- %s %s))) (= (sq.ref %s) (sq.ref %s)) (forall ((i!q Int)) (! (= (select (sq.arr %s) i!q) (ite (< i!q %s) (select (sq.arr %s) i!q) (select (sq.arr %s) (+ i!q (- %s %s))))) :pattern ((select (sq.arr %s) i!q)))))",
 			r.T, s.T, j.T, i.T, r.T, s.T, r.T, i.T, s.T, s.T, j.T, i.T, r.T))
+		fv.assume(st, fmt.Sprintf("(forall ((i!q Int)) (! (=> (and (<= %s i!q) (< i!q (sq.len %s))) (= (select (sq.arr %s) (- i!q (- %s %s))) (select (sq.arr %s) i!q))) :pattern ((select (sq.arr %s) i!q))))",
+			j.T, s.T, r.T, j.T, i.T, s.T, s.T))
 		fv.note("slices.Delete: the caller's original slice header is assumed not to be observed afterwards (tail zeroing not modelled)")
+		return one(r)
+	case "maps.Keys":
+		// only as the argument of slices.Collect (handled there): carry the map
+		return one(Val{T: args[0].T, S: args[0].S, Go: args[0].Go})
+	case "slices.Collect":
+		// slices.Collect(maps.Keys(m)): the keys of m, each once, in any order
+		m := args[0]
+		if !strings.HasPrefix(m.S, "(GMap ") {
+			return nil, false
+		}
+		ks, _ := mapSorts(m.S)
+		r := fv.freshVal("keys", t)
+		mem := fv.sess.fnMem(ks)
+		fv.assume(st, fmt.Sprintf("(and (%s %s) (> (sq.ref %s) alloc0) (forall ((x!q %s)) (! (= (%s %s x!q) (select (mp.dom %s) x!q)) :pattern ((%s %s x!q)) :pattern ((select (mp.dom %s) x!q)))))",
+			fv.sess.fnNodup(ks), r.T, r.T, ks, mem, r.T, m.T, mem, r.T, m.T))
 		return one(r)
 	case "maps.Clone":
 		m := args[0]
@@ -1203,6 +1287,7 @@ func (fv *FV) callMods(call *ast.CallExpr, ms *modSet, depth int) {
 			if sel, ok := a.(SSel); ok {
 				for _, k := range fv.w.keysForFieldName(sel.Sel) {
 					ms.heap[k] = true
+					ms.addBase(k, nil)
 				}
 			}
 		}
@@ -1214,11 +1299,33 @@ func (fv *FV) callMods(call *ast.CallExpr, ms *modSet, depth int) {
 	if d := fv.w.declOf(fn); d != nil && d.decl.Body != nil && depth < 3 {
 		saved := fv.fn
 		fv.fn = &fnCtx{pkg: d.pkg, sig: fn.Type().(*types.Signature)}
-		sub := &modSet{vars: map[types.Object]bool{}, heap: map[string]bool{}}
+		sub := &modSet{vars: map[types.Object]bool{}, heap: map[string]bool{}, bases: map[string][]*ast.Ident{}}
 		fv.collectMods(d.decl.Body, sub, depth+1)
 		fv.fn = saved
+		// translate the callee's receiver identifier to the caller's receiver
+		// expression when that is a plain identifier; everything else is imprecise
+		var calleeRecv types.Object
+		if d.decl.Recv != nil && len(d.decl.Recv.List) > 0 && len(d.decl.Recv.List[0].Names) > 0 {
+			calleeRecv = d.pkg.TypesInfo.Defs[d.decl.Recv.List[0].Names[0]]
+		}
+		var callerRecv *ast.Ident
+		if recvExpr != nil {
+			callerRecv, _ = unparen(recvExpr).(*ast.Ident)
+		}
 		for k := range sub.heap {
 			ms.heap[k] = true
+			bs, ok := sub.bases[k]
+			if !ok || len(bs) == 0 {
+				ms.addBase(k, nil)
+				continue
+			}
+			for _, b := range bs {
+				if b != nil && calleeRecv != nil && callerRecv != nil && d.pkg.TypesInfo.Uses[b] == calleeRecv {
+					ms.addBase(k, callerRecv)
+				} else {
+					ms.addBase(k, nil)
+				}
+			}
 		}
 		if sub.heapAll {
 			ms.heapAll = true
